@@ -233,6 +233,30 @@ def check_entry_points(repo: Repo, rep: Report, tier: str):
                 )
 
 
+def check_refusal_inert(repo: Repo, rep: Report):
+    """Mediation means the pickle does not get to name what is imported: nothing the mediating unpickler itself reaches - its
+    constructor, find_class, the messages it builds when it refuses - may look a module up by a name taken from the pickle
+    (importlib.import_module / find_spec import parent packages, __import__, pkgutil, sys.modules probes with __getattr__
+    hooks).  The only import is the one `super().find_class` performs for an admitted global."""
+    from ..callgraph import CallGraph
+    from ..effects import classify_external
+
+    rule = "C07.refusal-inert"
+    rep.rule(rule, "nothing reachable from FicklingMLUnpickler (other than super().find_class on an admitted global) touches the import machinery", 1)
+    c = repo.cls("fickling.ml.FicklingMLUnpickler")
+    roots = [(m, None) for name in ("find_class", "__init__", "persistent_load", "load") for m in [c.method(name)] if m is not None]
+    cg = CallGraph(repo)
+    reached, parent, sites = cg.reachable(roots)
+    n = 0
+    IMPORTERS = ("importlib.", "pkgutil.", "imp.", "runpy.", "zipimport.")
+    for s_ in sites:
+        for q in s_.externals:
+            n += 1
+            if q.startswith(IMPORTERS) or q in ("builtins.__import__", "importlib", "sys.modules") or (classify_external(q) == "forbidden" and q.split(".")[-1] in ("__import__", "import_module", "find_spec", "find_loader", "load_module", "exec_module", "get_data")):
+                rep.bad(rule, s_.func.qualname, f"import-machinery:{q}", f"`{src(s_.node)[:80]}` ({q}) is reachable from the mediating unpickler: looking a module up by a name that comes from the pickle imports its parent package(s) - code named by the pickle runs although the global is refused", s_.func.file, s_.line)
+    rep.ok(rule, c.qualname, f"{len(reached)} function(s) reachable from the unpickler's own methods, {n} external call(s) examined: none touches the import machinery", f"{c.module.relpath}:{c.node.lineno}")
+
+
 def run(rep: Report, tier: str):
     repo = load_repo()
     rep.explanation = (
@@ -248,6 +272,7 @@ def run(rep: Report, tier: str):
     check_find_class(repo, rep)
     check_closures(repo, rep)
     check_entry_points(repo, rep, tier)
+    check_refusal_inert(repo, rep)
     # the set consulted is exactly built-in + this activation's additions: C11's ownership analysis, re-keyed
     from . import c11 as _c11
 
